@@ -16,6 +16,7 @@
 package meta
 
 import (
+	"bytes"
 	"regexp/syntax"
 )
 
@@ -41,6 +42,10 @@ type AnchoredLiteralInfo struct {
 
 	// WildcardMin is 0 for .* or 1 for .+
 	WildcardMin int
+
+	// WildcardNoNL is true when the wildcard's dot does not match '\n'
+	// (no (?s) flag): the bytes covered by the wildcard must not contain '\n'.
+	WildcardNoNL bool
 
 	// MinLength is the minimum input length for a possible match.
 	// Calculated as: len(Prefix) + WildcardMin + CharClassMin + len(Suffix)
@@ -102,6 +107,7 @@ func DetectAnchoredLiteral(re *syntax.Regexp) *AnchoredLiteralInfo {
 	var prefix []byte
 	var wildcardIdx = -1
 	var wildcardMin int
+	var wildcardNoNL bool
 	var charClassTable *[256]bool
 	var charClassMin int
 
@@ -117,6 +123,7 @@ func DetectAnchoredLiteral(re *syntax.Regexp) *AnchoredLiteralInfo {
 			}
 			wildcardIdx = i
 			wildcardMin = getWildcardMin(sub)
+			wildcardNoNL = sub.Sub[0].Op == syntax.OpAnyCharNotNL
 		} else if wildcardIdx == -1 {
 			// Before wildcard - must be literal (prefix)
 			lit := extractLiteral(sub)
@@ -166,6 +173,7 @@ func DetectAnchoredLiteral(re *syntax.Regexp) *AnchoredLiteralInfo {
 		CharClassTable: charClassTable,
 		CharClassMin:   charClassMin,
 		WildcardMin:    wildcardMin,
+		WildcardNoNL:   wildcardNoNL,
 		MinLength:      minLen,
 	}
 }
@@ -343,7 +351,7 @@ func MatchAnchoredLiteral(input []byte, info *AnchoredLiteralInfo) bool {
 	if info.CharClassTable == nil {
 		// Still need to verify wildcard minimum
 		middleLen := suffixStart - len(info.Prefix)
-		return middleLen >= info.WildcardMin
+		return middleLen >= info.WildcardMin && info.wildcardAccepts(input[len(info.Prefix):suffixStart])
 	}
 
 	// O(k) charclass bridge check
@@ -368,5 +376,13 @@ func MatchAnchoredLiteral(input []byte, info *AnchoredLiteralInfo) bool {
 		}
 	}
 
-	return found >= info.CharClassMin
+	// The wildcard covers what is left between the prefix and the charclass run
+	// (the longest run leaves the shortest, i.e. most permissive, wildcard span).
+	return found >= info.CharClassMin && info.wildcardAccepts(input[len(info.Prefix):charClassEnd-found])
+}
+
+// wildcardAccepts reports whether the wildcard (.* or .+) can match span:
+// without the (?s) flag, `.` does not match '\n'.
+func (info *AnchoredLiteralInfo) wildcardAccepts(span []byte) bool {
+	return !info.WildcardNoNL || bytes.IndexByte(span, '\n') < 0
 }
